@@ -111,6 +111,7 @@ func checkC07() *rtCheck {
 		Floor:      [2]int{10, 150},
 		AllowFiles: true,
 		Streams:    true,
+		Unions:     true,
 		PostDesign: func(run *vc.Run, d *pipeline.Design, setup map[string]any) {
 			mounted := map[string][][2]string{}
 			if b, err := json.Marshal(setup["mounted"]); err == nil {
